@@ -135,7 +135,31 @@ func permutedTwin(t *rapid.T, c *gen.DocCase) (*jsonapi.Document, *jsonapi.URL, 
 		u.Params.Fields[k] = permuteStrings(t, c.Selection[k], "sel-"+k, &changed)
 	}
 
+	// The filter is content: the twin has an equal one (its own copy, operands
+	// in the same order).
+	u.Params.FilterLabel = c.URL.Params.FilterLabel
+	u.Params.Filter = copyFilter(c.URL.Params.Filter)
+
 	return doc, u, changed
+}
+
+func copyFilter(f *jsonapi.Filter) *jsonapi.Filter {
+	if f == nil {
+		return nil
+	}
+
+	g := &jsonapi.Filter{Field: f.Field, Op: f.Op, Val: gen.Clone(f.Val)}
+
+	if kids, ok := f.Val.([]*jsonapi.Filter); ok {
+		ck := make([]*jsonapi.Filter, len(kids))
+		for i, k := range kids {
+			ck[i] = copyFilter(k)
+		}
+
+		g.Val = ck
+	}
+
+	return g
 }
 
 // observable renders everything C11 says must not change: resources (to-many as
@@ -157,7 +181,27 @@ func observable(c *gen.DocCase) string {
 		fmt.Fprintf(&b, "%q:%q ", k, l)
 	}
 
+	// The filter exactly as it reads (operands in their order).
+	fmt.Fprintf(&b, "label=%q filter=%s", u.Params.FilterLabel, showFilter(u.Params.Filter))
+
 	return b.String()
+}
+
+func showFilter(f *jsonapi.Filter) string {
+	if f == nil {
+		return "none"
+	}
+
+	if kids, ok := f.Val.([]*jsonapi.Filter); ok {
+		parts := make([]string, len(kids))
+		for i, k := range kids {
+			parts[i] = showFilter(k)
+		}
+
+		return fmt.Sprintf("%s(%s)", f.Op, strings.Join(parts, ", "))
+	}
+
+	return fmt.Sprintf("{%q %q %s}", f.Field, f.Op, gen.Show(f.Val))
 }
 
 func TestC11Deterministic(t *testing.T) {
